@@ -180,3 +180,18 @@ Theorem C09_mapor_km_stale_merge (H : list (oprec (mop oop))) :
   mmerge orswot_valops s1 s2 = s1 /\ mmerge orswot_valops s2 s1 = s1.
 Proof. exact (mapor_stale_merge_km H). Qed.
 Print Assumptions C09_mapor_km_stale_merge.
+
+(** Map<K, Orswot>, EVERY history outside the classes of the known findings T2 and T3 (all commands; a key that some key remove names receives only nested adds [kmn_addonly] and at most one update per actor [km_once]; any other key receives anything): a duplicate op and a stale state leave the complete state unchanged (proofs/MapOrswotKMN.v) *)
+From Crdt Require Import model.Orswot model.Map spec.System spec.OrswotSpec spec.OrswotSystem spec.MapSpec spec.MapSystem spec.MapOrswotSpec spec.MapOrswotKM spec.MapOrswotKMN proofs.MapOrswotKMN proofs.MapOrswotKMNCor.
+Theorem C09_mapor_kmn_dup_apply (H : list (oprec (mop oop))) :
+  mohist_ok_kmn H -> km_once H -> kmn_addonly H -> forall (s : cmap orswot) (K : gset nat) (i : nat) (r : oprec (mop oop)),
+  moreach_kmn H s K -> H !! i = Some r -> i ∈ K -> mapply orswot_valops s (op_val r) = s.
+Proof. exact (mapor_dup_apply_kmn H). Qed.
+Print Assumptions C09_mapor_kmn_dup_apply.
+
+Theorem C09_mapor_kmn_stale_merge (H : list (oprec (mop oop))) :
+  mohist_ok_kmn H -> km_once H -> kmn_addonly H -> forall (s1 : cmap orswot) (K1 : gset nat) (s2 : cmap orswot) (K2 : gset nat),
+  moreach_kmn H s1 K1 -> moreach_kmn H s2 K2 -> K2 ⊆ K1 ->
+  mmerge orswot_valops s1 s2 = s1 /\ mmerge orswot_valops s2 s1 = s1.
+Proof. exact (mapor_stale_merge_kmn H). Qed.
+Print Assumptions C09_mapor_kmn_stale_merge.
